@@ -42,14 +42,14 @@ MIN_COUNTERS = {
     'quick': {'programs_compared': 250, 'comparisons': 1200, 'failing_builds': 150,
               'residue_checks': 450, 'concurrent_builds': 200,
               'concurrent_serialisations': 100, 'shared_argument_cases': 100,
-              'signed_zero_cases': 100, 'shared_object_cases': 100,
+              'signed_zero_cases': 100, 'shared_object_cases': 100, 'shared_list_cases': 100,
               'routine_steps_during_concurrent_builds': 100,
               'builds_inside_a_routine_during_concurrent_builds': 10},
     'thorough': {'programs_compared': 40000, 'comparisons': 160000,
                  'failing_builds': 30000, 'residue_checks': 60000,
                  'concurrent_builds': 40000, 'concurrent_serialisations': 1500,
                  'shared_argument_cases': 20000, 'signed_zero_cases': 20000,
-                 'shared_object_cases': 20000,
+                 'shared_object_cases': 20000, 'shared_list_cases': 20000,
                  'routine_steps_during_concurrent_builds': 2000,
                  'builds_inside_a_routine_during_concurrent_builds': 100},
 }
@@ -275,6 +275,8 @@ def run_shard(spec, acc):
                 signed_zero_case(ns, rng, acc, 'sequential')
             if rng.random() < 0.5:
                 shared_objects_case(ns, rng, acc, 'sequential')
+            if rng.random() < 0.5:
+                shared_list_case(ns, rng, acc, 'sequential')
             out[str(i)] = build_one(gg, ns, gen(seed, i))
     elif kind == 'heavy':
         junk = heavy_use(rng)
@@ -573,6 +575,62 @@ def shared_objects_case(ns, rng, acc, where):
                       {'field': field, 'style': style, 'failing_build_between': fail_between,
                        'build': k + 1, 'with_shared_object': got[k], 'with_fresh_object': ref,
                        'levels': lv, 'times': tm, 'where': where})
+
+
+def shared_list_case(ns, rng, acc, where):
+    """A list that outlives the build (module constant, closure variable) used as
+    an argument of unit constructors inside the graph function - nested lists with
+    literal zeros for the output units, frequency / multiplier tables for
+    oscillators: every build gives the bytes of a build with a fresh, equal list,
+    also after a build that failed behind the units."""
+    import hashlib as _h
+    import copy as _copy
+    SynthDef = ns['SynthDef']
+    kind = rng.choice(['out-nested-zeros', 'out-nested-zeros', 'xout', 'freq-table'])
+    zeros = [rng.choice([0, 0, 0.0, 0.25]) for _ in range(rng.randint(1, 3))]
+    table = [[rng.choice([110, 220, 0, 330.5]) for _ in range(rng.randint(1, 3))]
+             for _ in range(rng.randint(1, 2))]
+    body = {
+        'out-nested-zeros': "    Out.ar([0, 2], [SinOsc.ar(440), SHARED[0]])\n",
+        'xout': "    XOut.ar(0, 0.5, [SinOsc.ar(440), SHARED[0]])\n",
+        'freq-table': "    Out.ar(0, SinOsc.ar(SHARED[1]) * 0.1)\n",
+    }[kind]
+    src = ("def vfshared(amp=0.5):\n"
+           "    sig = SinOsc.ar(200) * amp\n" + body +
+           "    if FAIL[0]:\n"
+           "        raise ValueError('vf injected')\n"
+           "    Out.ar(4, sig)\n")
+    d = dict(ns)
+    from sc3.synth.ugens.inout import XOut
+    pristine = [zeros, table]
+    d.update(XOut=XOut, SHARED=_copy.deepcopy(pristine), FAIL=[False])
+    exec(src, d)
+
+    def build():
+        try:
+            return _h.sha256(bytes(SynthDef('vfshared', d['vfshared']).as_bytes())).hexdigest()
+        except Exception as e:
+            return 'raised ' + type(e).__name__
+    ref = build()
+    d['SHARED'] = shared = _copy.deepcopy(pristine)     # one object for the next builds
+    got = []
+    fail_between = rng.random() < 0.3
+    for k in range(3):
+        if fail_between and k == 1:
+            d['FAIL'][0] = True
+            build()
+            d['FAIL'][0] = False
+        got.append(build())
+    acc.count('shared_list_cases')
+    changed = repr(shared) != repr(pristine)
+    if any(g != ref for g in got) or changed:
+        k = next((i for i, g in enumerate(got) if g != ref), -1)
+        acc.violation('C20/bytes-differ/object-shared-with-an-earlier-build/list'
+                      if k >= 0 else 'C20/residue/build-changed-a-list-of-the-caller',
+                      {'kind': kind, 'failing_build_between': fail_between, 'build': k + 1,
+                       'with_shared_object': got[k] if k >= 0 else None,
+                       'with_fresh_object': ref, 'list_before': repr(pristine),
+                       'list_after': repr(shared)[:300], 'where': where})
 
 
 def signed_zero_case(ns, rng, acc, where):
